@@ -22,6 +22,7 @@ from mirse import model_http as H
 from mirse.model_misc import hex_encode_elems
 
 PROP = 'C11'
+FORM = 'application/x-www-form-urlencoded'
 
 NAMES = ['host', 'x-amz-date', 'a-hdr', 'b-hdr', 'zz-unsigned']
 
@@ -73,6 +74,12 @@ def shapes(tier, seed):
             for vl in ((1, 1), (0, 2), (2, 0)) if q else itertools.product((0, 1, 2), repeat=2):
                 out.append(('creq', (('host', 1), (first, vl[0]), (second, vl[1])), tuple(sorted(['host', n1, n2]))))
                 out.append(('creq', ((first, vl[0]), (second, vl[1]), ('host', 1)), tuple(sorted([n1, n2]) + ['host']) if False else tuple(sorted(['host', n1, n2]))))
+    # form folding on: the headers of the request as received are what is signed (content-length / content-type included), although
+    # the body is folded away
+    for signed in (('content-length', 'content-type', 'host'), ('content-length', 'host'), ('host',)):
+        for vl in ((1,), (2,)) if q else ((0,), (1,), (2,), (3,)):
+            out.append(('creq-fold', (('host', 1), ('content-length', vl[0])), signed))
+            out.append(('creq-fold', (('content-length', vl[0]), ('host', 1), ('content-length', 1)), signed))
     return sorted(set(out), key=repr)
 
 
@@ -92,15 +99,20 @@ def run_shape(prog, shape, tier, seed, res):
             out = m.call('normalize_header_value', [mk_slice(es)], None)
             return ('value', es, out.elems, R.ref_header_value(ctx, es))
         _, entries, signed = shape
+        fold = kind == 'creq-fold'
         hdrs = H.HeaderMap()
         vals = []
         for j, (name, vl) in enumerate(entries):
             v = [header_byte(ctx, 'v%d_%d' % (j, i)) for i in range(vl)]
             vals.append((name, v))
             hdrs.append(name, v)
-        bodyb = sym_bytes(ctx, 'body', 2)
+        if fold:
+            ctv = conc_bytes(FORM)
+            vals.append(('content-type', ctv))
+            hdrs.append('content-type', ctv)
+        bodyb = sym_bytes(ctx, 'body', 2) if not fold else conc_bytes('c=3')
         parts = H.mk_parts(H.Method('POST'), H.Uri(conc_bytes('/p'), conc_bytes('b=2&a=1')), hdrs)
-        opts = Adt('SignatureOptions', None, [False, False], ['s3', 'url_encode_form'])
+        opts = Adt('SignatureOptions', None, [False, fold], ['s3', 'url_encode_form'])
         r = m.call('CanonicalRequest::from_request_parts', [parts, VecObj(bodyb, 'bytes'), opts], None)
         if r.variant != 'Ok':
             return ('creq-err', vals, r.fields[0].variant)
@@ -110,11 +122,12 @@ def run_shape(prog, shape, tier, seed, res):
         # reference
         calls = [c for c in m.x_oracle.calls if c.kind == 'sha256']
         bh = None
+        hashed = bodyb if not fold else []        # a folded form is hashed as the empty payload
         for c in calls:
-            if len(c.msg) == len(bodyb) and all(x is y or (not x.sym and not y.sym and x.v == y.v) or
-                                                (x.sym and y.sym and x.v.eq(y.v)) for x, y in zip(c.msg, bodyb)):
+            if len(c.msg) == len(hashed) and all(x is y or (not x.sym and not y.sym and x.v == y.v) or
+                                                 (x.sym and y.sym and x.v.eq(y.v)) for x, y in zip(c.msg, hashed)):
                 bh = c
-        ref = conc_bytes('POST\n/p\na=1&b=2\n')
+        ref = conc_bytes('POST\n/p\na=1&b=2\n' if not fold else 'POST\n/p\na=1&b=2&c=3\n')
         for n in signed:
             vs = [v for nm, v in vals if nm == n]
             if not vs:
@@ -140,7 +153,7 @@ def run_shape(prog, shape, tier, seed, res):
             inp = {'value_hex': model_bytes(model, vals).hex()}
         else:
             inp = {'headers': [[n, model_bytes(model, v).hex()] for n, v in vals], 'signed': list(shape[2]),
-                   'body_hex': '0000'}
+                   'body_hex': '0000' if kind != 'creq-fold' else b'c=3'.hex(), 'fold': kind == 'creq-fold'}
         res.findings.append(Finding(what, inp, None, None, repr(shape)))
 
     def on_path(pr):
@@ -190,9 +203,11 @@ def run_shape(prog, shape, tier, seed, res):
 import hashlib
 
 
-def ref_creq_concrete(headers, signed, body):
+def ref_creq_concrete(headers, signed, body, fold=False):
     ctx = RefCtx()
-    ref = b'POST\n/p\na=1&b=2\n'
+    ref = b'POST\n/p\na=1&b=2\n' if not fold else b'POST\n/p\na=1&b=2&' + body + b'\n'
+    if fold:
+        body = b''
     for n in signed:
         vs = [bytes.fromhex(v) for nm, v in headers if nm == n]
         if not vs:
@@ -202,10 +217,10 @@ def ref_creq_concrete(headers, signed, body):
     return ref
 
 
-def native_creq(rp, headers, signed, body):
+def native_creq(rp, headers, signed, body, fold=False):
     r = rp.ask({'op': 'canonical', 'request': {'method': 'POST', 'uri': '/p?b=2&a=1', 'headers': headers,
                                                'body_hex': body.hex()},
-                'options': {'s3': False, 'url_encode_form': False}, 'signed_headers': signed})
+                'options': {'s3': False, 'url_encode_form': fold}, 'signed_headers': signed})
     if 'ok' in r:
         return ('ok', r['ok'].get('canonical_request_hex'))
     return ('other', json.dumps(r)[:300])
@@ -273,8 +288,8 @@ def replay_finding(rp, f):
         return nat != ref, {'native': nat, 'reference': ref}
     if 'headers' in f.inp:
         body = bytes.fromhex(f.inp['body_hex'])
-        nat = native_creq(rp, f.inp['headers'], f.inp['signed'], body)
-        ref = ref_creq_concrete(f.inp['headers'], f.inp['signed'], body).hex()
+        nat = native_creq(rp, f.inp['headers'], f.inp['signed'], body, f.inp.get('fold', False))
+        ref = ref_creq_concrete(f.inp['headers'], f.inp['signed'], body, f.inp.get('fold', False)).hex()
         return nat != ('ok', ref), {'native': nat, 'reference': ref}
     return False, None
 
